@@ -349,7 +349,7 @@ func CheckC08(tier string, seed uint64) int {
 	}
 	nProg, maxOps, allSinks := 220, 24, false
 	if tier == "thorough" {
-		nProg, maxOps, allSinks = 12000, 40, true
+		nProg, maxOps, allSinks = 3000, 40, true
 	}
 	progs := make([]*Program, nProg)
 	sinks := make([][]Sink, nProg)
